@@ -381,10 +381,38 @@ func runC17ScanErr(c *Ctx) {
 		c.anchorMissing("(*globValidator).init")
 		return
 	}
+	// the function stored into scanner.Scanner.Error: a closure of init, or a method of the validator used as a value
 	var cb *ssa.Function
-	for _, fn := range p.Funcs {
-		if fn.Parent() == initFn {
-			cb = fn
+	eachInstr(initFn, func(_ *ssa.BasicBlock, _ int, in ssa.Instruction) {
+		st, ok := in.(*ssa.Store)
+		if !ok {
+			return
+		}
+		fa, ok := st.Addr.(*ssa.FieldAddr)
+		if !ok || !strings.HasSuffix(fieldAddrName(fa), "Scanner.Error") {
+			return
+		}
+		switch x := unwrap(st.Val).(type) {
+		case *ssa.MakeClosure:
+			f, _ := x.Fn.(*ssa.Function)
+			if f != nil && f.Synthetic != "" {
+				// bound method wrapper: the method itself
+				if obj, ok := f.Object().(*types.Func); ok {
+					if m := p.SSA.FuncValue(obj); m != nil {
+						f = m
+					}
+				}
+			}
+			cb = f
+		case *ssa.Function:
+			cb = x
+		}
+	})
+	if cb == nil {
+		for _, fn := range p.Funcs {
+			if fn.Parent() == initFn {
+				cb = fn
+			}
 		}
 	}
 	if cb == nil {
